@@ -43,6 +43,8 @@ pub struct ConnObs {
     pub left_seq: Option<u64>,
     /// per request: event seq at which its last byte was written
     pub sent_seq: Vec<Option<u64>>,
+    /// per request: event seq when its first byte was about to be written
+    pub start_seq: Vec<Option<u64>>,
     pub rx_bytes: u64,
     /// H2 only: per request, transport-level error text
     pub h2_err: Vec<Option<String>>,
@@ -68,6 +70,7 @@ impl ConnObs {
             left: Left::No,
             left_seq: None,
             sent_seq: vec![None; nreqs],
+            start_seq: vec![None; nreqs],
             rx_bytes: 0,
             h2_err: vec![None; nreqs],
             by_req: vec![None; nreqs],
@@ -212,12 +215,25 @@ pub async fn run_conn(
     let mut wend = end.clone();
     let start = world.0.lock().unwrap().start;
     let ms = std::time::Duration::from_millis;
+    let mut cur_req = 0usize;
     for step in &plan.steps {
         if end.has_left() && !matches!(step, Step::Sleep { .. } | Step::Until { .. }) {
             break;
         }
         match step {
             Step::Send { data, completes } => {
+                let belongs = completes.unwrap_or(cur_req);
+                if let Some(j) = completes {
+                    cur_req = j + 1;
+                }
+                {
+                    let mut s = shared.lock().unwrap();
+                    if let Some(x) = s.obs.start_seq.get_mut(belongs) {
+                        if x.is_none() {
+                            *x = Some(world.n_events());
+                        }
+                    }
+                }
                 match wend.write_all(&data.0).await {
                     Ok(()) => {
                         if let Some(i) = completes {
